@@ -71,8 +71,20 @@ def p_c08(q):
     return head_stages(5) + [mc_router('T'), gen_bfs('X', 2), gen_bfs('C', 2), gen_sim('X', 10, 60), gogen('mixed', 800)]
 
 
+RULE_CORS = ('TLC enumerates the product of CORS configuration classes (origins x allowed headers x exposed x max-age x credentials, incl. invalid ones) and, per configuration, '
+             'every request class (method x path x Origin x Access-Control-Request-Method x Access-Control-Request-Headers with case/spacing variants) on a fixed route table; '
+             'each request is executed on the real router and the SENT response headers are validated against Cors.tla. Non-trivial = any reply that is not a plain 404.')
+
+
+def cors_stages(sample, n_go):
+    return [{'kind': 'mc', 'name': 'cors', 'module': 'MC_Cors', 'invariants': ['DecisionConsistent' if sample >= 1.0 else 'DecisionConsistentSmall'], 'workers': 16},
+            {'kind': 'gen', 'name': 'corsprod', 'module': 'MC_Cors', 'trace': 'Trace_Router', 'sample': sample, 'min_per_shard': 1}]
+
+
 def plan(prop, tier):
     q = tier == 'quick'
+    if prop in ('C11', 'C12'):
+        return {'stages': cors_stages(0.2 if q else 1.0, 0), 'rule': RULE_CORS, 'assumptions': ASSUME_COMMON}
     if prop == 'C08':
         return {'stages': p_c08(q), 'rule': RULE_HEAD, 'assumptions': ASSUME_COMMON}
     if prop in ROUTER_PLANS:
